@@ -51,7 +51,10 @@ CLAIMS = {
              "the lexer's table over all 256 opcodes: totality over the encoder's alphabet, fused-VERIFY splitting, "
              "non-minimal VERIFY rejection, push classes, minimal non-negative numbers; decode . encode = id (as scripts) on a "
              "family of ~90 miniscripts covering every fragment, both contexts and every number-push width, by evaluating "
-             "lexer + decoder on the specification's script.",
+             "lexer + decoder on the specification's script; and every single-instruction mutation of those scripts "
+             "(deletions, duplications, swaps, opcode / push insertions and replacements, zero / non-minimal numbers, a "
+             "fused *VERIFY written as two opcodes) that the decoder accepts re-encodes to the very same instruction "
+             "stream (the decoder accepts canonical encodings only).",
         note="Trusted: spec/script.py (opcode bytes, templates); models of bitcoin::script::Builder::push_* (token "
              "constructors), the instruction iterator and read_scriptint; rustc THIR. The decoder is covered on the family, "
              "not on all scripts.",
@@ -93,7 +96,7 @@ CLAIMS = {
              "mixed-time-lock fold truth table. Decides structurally: polarity (tightening never admits more) and "
              "switch<->defect<->error pairing of every validation switch / limit on decision trees extracted symbolically "
              "from validate / validate_non_top_level for each of the 30 fragment kinds; every parameter is enforced; "
-             "per-context fragment and key tables; entry-point coverage and constructor discipline on MIR.",
+             "per-context fragment and key tables; entry-point coverage and constructor discipline on MIR. Numbers are in range on every way in: lock times exactly 1 <= n < 2^31 and thresholds 1 <= k <= n <= key limit, through the constructors, the text parser and the script decoder (boundary tables by evaluation).",
         note="Trusted: spec/limits.py; rustc THIR/MIR and constant evaluation. Defect predicates are assumed to compute "
              "what their names say; typed infallible combinators are outside the claim.",
         tech=STATIC + "symbolic decision-tree extraction with monotonicity (polarity) check, exact finite tables, MIR must-pass-through and who-may-construct",
